@@ -285,8 +285,11 @@ func isoFamilyCases(thorough bool, structural bool, visit func(c isoCase)) {
 	}
 	// files around 4 GiB (multi-extent) - sparse
 	bigs := []int64{0xFFFFF800 - 1, 0xFFFFF800, 0xFFFFF800 + 1, 0xFFFFFFFF, 0x100000000, 0x100000001, 2*0xFFFFF800 - 1, 2 * 0xFFFFF800, 2*0xFFFFF800 + 1}
+	// sizes just below and at multiples of 4 GiB (where an extent count computed with 2^32-1 instead of the extent
+	// size differs, and where 32-bit length fields wrap)
+	bigs = append(bigs, 1<<33-2048, 1<<33-2, 1<<33)
 	if thorough {
-		bigs = append(bigs, 3*0xFFFFF800, 3*0xFFFFF800+2048, 9<<30)
+		bigs = append(bigs, 3*0xFFFFF800, 3*0xFFFFF800+2048, 9<<30, 1<<33-2049, 1<<33-1, 3<<32-3072, 3<<32, 1<<34-1024)
 	}
 	for _, sz := range bigs {
 		sz := sz
@@ -344,6 +347,20 @@ func isoFamilyCases(thorough bool, structural bool, visit func(c isoCase)) {
 			mkFileAbs(filepath.Join(dir, strings.Repeat("n", l)), 10, 1, baseTime)
 			must(os.MkdirAll(filepath.Join(dir, strings.Repeat("d", l)), 0o755))
 			mkFileAbs(filepath.Join(dir, strings.Repeat("d", l), "in.bin"), 5, 2, baseTime)
+		}})
+		// the limits for file and for directory names are checked in different places: each kind alone, too, with
+		// ordinary neighbours before and behind it in the same directory
+		visit(isoCase{desc: sprintf("file-name-length=%d", l), family: "namelen", build: func(dir string) {
+			mkFileAbs(filepath.Join(dir, "a.bin"), 7, 3, baseTime)
+			mkFileAbs(filepath.Join(dir, strings.Repeat("n", l)), 10, 1, baseTime)
+			mkFileAbs(filepath.Join(dir, "zz.bin"), 2049, 4, baseTime)
+			mkFileAbs(filepath.Join(dir, "sub", strings.Repeat("m", l)), 11, 5, baseTime)
+		}})
+		visit(isoCase{desc: sprintf("dir-name-length=%d", l), family: "namelen", build: func(dir string) {
+			mkFileAbs(filepath.Join(dir, "a.bin"), 7, 3, baseTime)
+			must(os.MkdirAll(filepath.Join(dir, strings.Repeat("d", l)), 0o755))
+			mkFileAbs(filepath.Join(dir, strings.Repeat("d", l), "in.bin"), 5, 2, baseTime)
+			mkFileAbs(filepath.Join(dir, "zz.bin"), 2049, 4, baseTime)
 		}})
 	}
 	visit(isoCase{desc: "names non-ascii", family: "names", build: func(dir string) {
